@@ -58,7 +58,7 @@ def run_stream_case(init, ops):
 
 
 def gen_stream_case(rng):
-    init = (rng.choice(TEMPS), rng.choice(TEMPS), rng.choice([0.0, 2.5, 5.0, 10.0]), rng.choice([0.0, 10.0, 30.0, -15.0, 7.5]),
+    init = (rng.choice(TEMPS), rng.choice(TEMPS), rng.choice([0.0, 2.5, 5.0, 10.0]), rng.choice([0.0, 10.0, 30.0, -15.0, 7.5, -40.0]),
             rng.choice([1.0, 2.0, 0.5, 0.0]), rng.choice([0.0, 40.0]))
     ops = []
     for _ in range(rng.randint(0, 8)):
@@ -118,7 +118,8 @@ def stream_suite(ctx):
     corpus = [((50.0, 50.0, 5.0, 0.0, 1.0, 0.0), []),                                   # D13: zero-duty isothermal
               ((100.0, 40.0, 5.0, 120.0, 2.0, 30.0), [("t_supply", 20.0)]),               # D19: kind crossing
               ((20.0, 80.0, 10.0, 60.0, 1.0, 0.0), [("t_target", 20.0), ("heat_flow", -5.0), ("set_heat_flow", 12.0)]),
-              ((80.0, 20.0, 0.0, 10.0, 0.0, 40.0), [("htc", 4.0), ("dt_cont", 5.0), ("t_target", 120.0)])]
+              ((80.0, 20.0, 0.0, 10.0, 0.0, 40.0), [("htc", 4.0), ("dt_cont", 5.0), ("t_target", 120.0)]),
+              ((120.0, 120.0, 5.0, -300.0, 1.0, 0.0), [("dt_cont", 10.0)])]            # D54: isothermal hot stream, negative duty
     cases = corpus + [gen_stream_case(ctx.rng) for _ in range(n)]
     if ctx.thorough:   # exhaustive: all op sequences of length <= 3 over a reduced alphabet from two initial streams
         red = [("t_supply", 20.0), ("t_supply", 80.0), ("t_target", 20.0), ("t_target", 80.0), ("heat_flow", 0.0), ("heat_flow", 10.0),
